@@ -937,6 +937,17 @@ def ref_seed(ctx: Ctx) -> RuleResult:
         r.violate(f"{f.short} splice: exclusion of stub ids compares '{lt}' ids with '{rt}' ids", f.loc(good.node),
                   "the filter can never match, the defaults are copied under the stubs' ids and supplied arguments are ignored",
                   norm_src(good.node))
+    # every explicit argument gets its stub and its registration: the loop that binds arguments to inputs has no way round them
+    for lp in own_walk(sp.block):
+        if isinstance(lp, ast.For) and isinstance(lp.iter, ast.Call) and dotted(lp.iter.func) == "zip" \
+                and any(isinstance(x, ast.Call) and (dotted(x.func) or "").endswith("LazyExecNode") for x in own_walk(lp)):
+            skips = [x for x in own_walk(lp) if isinstance(x, (ast.Continue, ast.Break))]
+            r.ob(not skips, {"argument loop binds every explicit argument": not skips})
+            if skips:
+                r.violate(f"{f.short} splice: an explicit argument can bypass its stub", f.loc(skips[0]),
+                          "an input bound without a stub is not recorded as supplied: the copy of the inner DAG's own results then "
+                          "overwrites it with the parameter's default, and a value known at description time is frozen into the outer DAG",
+                          norm_src(_innermost_stmt(f.node, skips[0]) or skips[0])[:100])
     # the stub list receives the stub's own (prefixed) id
     for name, apps in sp.appends.items():
         for a in apps:
@@ -1001,6 +1012,16 @@ def ref_reserved(ctx: Ctx) -> RuleResult:
     mk = [f for f in pkg_funcs(ctx) if f.name == "make_kwargs" and f.cls is None]
     r.require(len(mk) == 1, "make_kwargs not found")
     skips = [n for n in iter_own_nodes(mk[0].node) if isinstance(n, ast.If) and n.body and isinstance(n.body[0], ast.Continue)]
+    if len(skips) == 1 and not (isinstance(skips[0].test, ast.Compare) and isinstance(skips[0].test.ops[0], ast.In)):
+        t_ = skips[0].test
+        pattern = [c for c in ast.walk(t_) if isinstance(c, ast.Call) and isinstance(c.func, ast.Attribute)
+                   and c.func.attr in ("startswith", "endswith", "match", "search", "fullmatch")]
+        if pattern:
+            r.ob(False, {"stripped by the tracer": norm_src(t_)})
+            r.violate("make_kwargs: keyword names are stripped by a pattern, not by membership in the reserved names", mk[0].loc(skips[0]),
+                      "an ordinary keyword argument of the user's function that merely matches the pattern (twz_factor) is neither wired "
+                      "as a dependency nor passed on: the function silently runs with its default", norm_src(t_))
+            return r
     r.require(len(skips) == 1 and isinstance(skips[0].test, ast.Compare) and isinstance(skips[0].test.ops[0], ast.In), "make_kwargs: skip test not found")
     c = skips[0].test.comparators[0]
     skipped = {dotted(x) for x in c.elts} if isinstance(c, (ast.List, ast.Tuple, ast.Set)) else ({"RESERVED_KWARGS"} if dotted(c) == "RESERVED_KWARGS" else set())
@@ -1612,6 +1633,20 @@ def ref_unwrap(ctx: Ctx) -> RuleResult:
                           "xn(existing_node, setup=True): the new node runs the OLD NODE as its function; at run time that is a call of a "
                           "decorated function outside a DAG description - TawaziUsageError with the default configuration", norm_src(call)[:100])
     r.require(n >= 1, "construction of the node in the decorator not found")
+    # ... and it never hands an existing ExecNode back unchanged: the options given to this call would be dropped
+    for f in pkg_funcs(ctx):
+        if not f.module.name.endswith("_decorators"):
+            continue
+        params = {a.arg for a in f.node.args.posonlyargs + f.node.args.args + f.node.args.kwonlyargs}
+        for x in iter_own_nodes(f.node):
+            if isinstance(x, ast.If) and isinstance(x.test, ast.Call) and dotted(x.test.func) == "isinstance" and len(x.test.args) == 2 \
+                    and "ExecNode" in norm_src(x.test.args[1]) and dotted(x.test.args[0]) in params:
+                back = [b for b in x.body if isinstance(b, ast.Return) and dotted(b.value) == dotted(x.test.args[0])]
+                if back:
+                    r.ob(False, {"in": f.short, "returns the ExecNode it was given": norm_src(x.test)})
+                    r.violate(f"{f.short}: an existing ExecNode given to the decorator is returned as it is", f.loc(back[0]),
+                              "xn(existing_node, is_sequential=True) hands back the old node: the options of this call (is_sequential, "
+                              "priority, setup, ...) are silently ignored", norm_src(x)[:100])
     return r
 
 
